@@ -12,22 +12,22 @@ import (
 // sessionCallees: functions of crypto/* taking a session/context as first explicit argument.
 // value = index of the session argument in call.Args (receiver counts as 0 for methods).
 var sessionCallees = map[string]int{
-	"~/crypto/schnorr.NewZKProof":              0,
-	"~/crypto/schnorr.NewZKVProof":             0,
-	"(*~/crypto/schnorr.ZKProof).Verify":       1,
-	"(*~/crypto/schnorr.ZKVProof).Verify":      1,
-	"~/crypto/modproof.NewProof":               0,
-	"(*~/crypto/modproof.ProofMod).Verify":     1,
-	"~/crypto/facproof.NewProof":               0,
-	"(*~/crypto/facproof.ProofFac).Verify":     1,
-	"~/crypto/mta.BobMid":                      0,
-	"~/crypto/mta.BobMidWC":                    0,
-	"~/crypto/mta.AliceEnd":                    0,
-	"~/crypto/mta.AliceEndWC":                  0,
-	"~/crypto/mta.ProveBob":                    0,
-	"~/crypto/mta.ProveBobWC":                  0,
-	"(*~/crypto/mta.ProofBob).Verify":          1,
-	"(*~/crypto/mta.ProofBobWC).Verify":        1,
+	"~/crypto/schnorr.NewZKProof":          0,
+	"~/crypto/schnorr.NewZKVProof":         0,
+	"(*~/crypto/schnorr.ZKProof).Verify":   1,
+	"(*~/crypto/schnorr.ZKVProof).Verify":  1,
+	"~/crypto/modproof.NewProof":           0,
+	"(*~/crypto/modproof.ProofMod).Verify": 1,
+	"~/crypto/facproof.NewProof":           0,
+	"(*~/crypto/facproof.ProofFac).Verify": 1,
+	"~/crypto/mta.BobMid":                  0,
+	"~/crypto/mta.BobMidWC":                0,
+	"~/crypto/mta.AliceEnd":                0,
+	"~/crypto/mta.AliceEndWC":              0,
+	"~/crypto/mta.ProveBob":                0,
+	"~/crypto/mta.ProveBobWC":              0,
+	"(*~/crypto/mta.ProofBob).Verify":      1,
+	"(*~/crypto/mta.ProofBobWC).Verify":    1,
 }
 
 // contextClass: v is ssid‖bytes(index): append(temp.ssid, X.Bytes()...) or
